@@ -1011,20 +1011,20 @@ def spl_nontrivial(si):
 SPL_TB = FLOW_TB + ["std::pow of the C++ side and Float.pow of the Lean runtime are the same libm function (bit-identical results observed on every compared scenario)",
                     "SPL theorems are over an ordered field (exact arithmetic); rounding is covered by the bit-exact correspondence and the oracle's documented allowance",
                     "the m_linear classification expression and the Newton exit test are regenerated from spl.hpp by translate.py"]
-register("C12", lean_modules=["FsProofs.Properties.ShapesC12", "FsProofs.Properties.ClosedMore", "FsProofs.Properties.C12", "FsProofs.Properties.C13"], theorems=["Fs.Shapes.source_shape_C12", "Fs.Closed.raster_C12_spl_single", "Fs.Closed.raster_C12_spl_multi", "Fs.Closed.erode_nonneg_routed", "Fs.C13.erode_zero", "Fs.C13.erode_floor", "Fs.C13.sweep_final", "Fs.C13.erode_look", "Fs.C12.nodeStep_skip", "Fs.C12.nodeStep_linear", "Fs.C12.spl_floor", "Fs.C12.spl_nonneg", "Fs.C12.fold_linear", "Fs.C12.contribs_nonneg"],
+register("C12", lean_modules=["FsProofs.Properties.ClosedC12Resolve", "FsProofs.Properties.ShapesC12", "FsProofs.Properties.ClosedMore", "FsProofs.Properties.C12", "FsProofs.Properties.C13"], theorems=["Fs.Closed.grid_C12_spl_resolve", "Fs.Closed.grid_resolve_dist_pos", "Fs.Closed.raster_C12_spl_resolve", "Fs.Closed.mesh_C12_spl_resolve", "Fs.Closed.profile_C12_spl_resolve", "Fs.Shapes.source_shape_C12", "Fs.Closed.raster_C12_spl_single", "Fs.Closed.raster_C12_spl_multi", "Fs.Closed.erode_nonneg_routed", "Fs.C13.erode_zero", "Fs.C13.erode_floor", "Fs.C13.sweep_final", "Fs.C13.erode_look", "Fs.C12.nodeStep_skip", "Fs.C12.nodeStep_linear", "Fs.C12.spl_floor", "Fs.C12.spl_nonneg", "Fs.C12.fold_linear", "Fs.C12.contribs_nonneg"],
          gen=gen_spl, oracles=[oracle.c12], cause=oracle.spl_cause, nontrivial=spl_nontrivial, tags=spl_tags,
          sections={"erosion", "ncorr", "spl"},
          rule="routed graphs (single / parallel single / multi, pflood or spanning-tree resolved or unresolved, masks, interior base levels) x K scalar/array (0 .. 1, x0.1..3 variation) x m in {.3,.5,1} x n in {.5,.8,1,1.5,2,4} x tol x dt in {0,1,10,100,1e4,1e8} x random areas up to 1e6; 1-2 erode() calls per update on one eroder object, elevation = routed field or another field; non-trivial = some erosion is non-zero")
-register("C13", lean_modules=["FsProofs.Properties.ShapesC13", "FsProofs.Properties.ClosedMore", "FsProofs.Properties.C12", "FsProofs.Properties.C13"], theorems=["Fs.Shapes.source_shape_C13", "Fs.Closed.raster_C12_spl_single", "Fs.Closed.raster_C12_spl_multi", "Fs.C13.erode_residual", "Fs.C13.erode_newton_residual", "Fs.C13.spl_newton_residual", "Fs.C13.newton_exit", "Fs.C13.newton_none_iff", "Fs.C13.nodeStep_newton_single", "Fs.C13.sweep_final", "Fs.C12.spl_residual", "Fs.C12.nodeStep_linear", "Fs.C12.fold_linear", "Fs.Spl.solve_residual"],
+register("C13", lean_modules=["FsProofs.Properties.ClosedC12Resolve", "FsProofs.Properties.ShapesC13", "FsProofs.Properties.ClosedMore", "FsProofs.Properties.C12", "FsProofs.Properties.C13"], theorems=["Fs.Closed.grid_C12_spl_resolve", "Fs.Closed.raster_C12_spl_resolve", "Fs.Closed.mesh_C12_spl_resolve", "Fs.Closed.profile_C12_spl_resolve", "Fs.Shapes.source_shape_C13", "Fs.Closed.raster_C12_spl_single", "Fs.Closed.raster_C12_spl_multi", "Fs.C13.erode_residual", "Fs.C13.erode_newton_residual", "Fs.C13.spl_newton_residual", "Fs.C13.newton_exit", "Fs.C13.newton_none_iff", "Fs.C13.nodeStep_newton_single", "Fs.C13.sweep_final", "Fs.C12.spl_residual", "Fs.C12.nodeStep_linear", "Fs.C12.fold_linear", "Fs.Spl.solve_residual"],
          gen=gen_spl, oracles=[oracle.c13], cause=oracle.spl_cause, nontrivial=spl_nontrivial, tags=spl_tags,
          sections={"erosion", "ncorr", "spl"},
          rule="same scenario family as C12; oracle evaluates the residual of the backward-Euler equation at every non-limited node (double arithmetic with a stated bound: tolerance + 64 eps x sensitivity-weighted magnitudes); non-trivial = some erosion is non-zero")
 for _p in ("C12", "C13"):
     PROPS[_p]["trusted_base"] = SPL_TB
-_lvl("C12", "proof",
+_lvl("C12", "proof AFTER THE SINK RESOLVER (ClosedC12Resolve.lean): the eroder normally runs on the graph the spanning-tree resolver returns, whose receivers AND distances were rewritten (basic: the pit drains over distance DBL_MAX to the pass node; carve: distances are shifted along the reversed path); grid_resolve_dist_pos proves every routed row of that graph stores a positive distance (fold invariant over routeBasic / carveLoop: the pit's own old distance 0 is read but never written), and grid_C12_spl_resolve (+ raster_/mesh_/profile_ instances, non-vacuity examples) gives the same five facts - returned array = final table, zero erosion at base levels / pits / masked / lake nodes, no slope reversal, lower bound -mn, exact backward-Euler residual when not limited - for that graph.",
      "Theorems about the executed Fs.Spl.nodeStep / erode over an arbitrary linearly ordered field with abstract pow >= 0, lifted to the WHOLE sweep (sweep_final: along a duplicate-free bottom-up order every node's final erosion is the one its own step wrote, computed from receivers that were already final): erode_zero (base levels, pits, masked nodes and nodes at or below their lowest receiver's new level get zero erosion), erode_floor (the new elevation is never below the lowest new elevation among the receivers: no slope reversal, no new depression), erode_nonneg_routed (every erosion >= -tiny for K, dt >= 0 and positive distances on the routed rows - the first version, erode_nonneg, asked for positive distances on every row, which terminal rows (distance 0) never satisfy; kept only as a lemma), erode_look (the returned array is that table), for any number of receivers on the closed-form path; per-node: nodeStep_skip, nodeStep_linear, spl_floor, spl_nonneg. Non-negativity on the Newton path, the rejection of non-linear exponents on multiple-direction graphs and overflow (D13) are tied by the bit-exact correspondence and the oracle only.",
      "Lean 4 ordered-field proofs on the executed sweep (per-node step lifted along the bottom-up order) + translator-regenerated classification/exit test + bit-exact correspondence + sign/lake/floor oracle")
-_lvl("C13", "proof",
+_lvl("C13", "proof AFTER THE SINK RESOLVER (ClosedC12Resolve.lean): the eroder normally runs on the graph the spanning-tree resolver returns, whose receivers AND distances were rewritten (basic: the pit drains over distance DBL_MAX to the pass node; carve: distances are shifted along the reversed path); grid_resolve_dist_pos proves every routed row of that graph stores a positive distance (fold invariant over routeBasic / carveLoop: the pit's own old distance 0 is read but never written), and grid_C12_spl_resolve (+ raster_/mesh_/profile_ instances, non-vacuity examples) gives the same five facts - returned array = final table, zero erosion at base levels / pits / masked / lake nodes, no slope reversal, lower bound -mn, exact backward-Euler residual when not limited - for that graph.",
      "Theorems about the executed Fs.Spl.nodeStep / erode (exact arithmetic): erode_residual (closed-form path, any number of receivers: whenever the step is not limited, new - old + sum over the contributing receivers of K dt (A w)^m / distance * (new - receiver's FINAL new elevation) = 0), newton_exit / newton_none_iff (the Newton loop returns either an iterate that passes the exit test regenerated from the source - two-sided |func| <= tol - or a non-positive next iterate; none only when the fuel is exhausted), nodeStep_newton_single + spl_newton_residual + erode_newton_residual (slope exponent != 1, single receiver: the new elevation is receiver's new elevation + accepted iterate, clamped as on the linear path, and when not limited with a positive accepted iterate the backward-Euler residual new - old + K dt (A w)^m / d^n * pow(new - receiver's new, n) is within the Newton tolerance), for every positive exponent (pow abstract). Convergence of Newton (that an accepted iterate exists within the fuel) is not proved: tied by bit-exact correspondence and the residual oracle.",
      "Lean 4 field proofs of the implicit equation on the executed sweep (closed form and Newton exit) + bit-exact correspondence of the Newton path + residual oracle")
 
